@@ -309,7 +309,7 @@ static void hp_list_string_op(char **t, int nt) {
         memset(b, 'X', strlen(b)); free(b);
         fputs(" = ok", stdout);
     }
-    else if (!strcmp(op, "mg")) { fputs(" = ", stdout); hp_putcstr(list_string_get(l, (int)hp_int(t[2]))); }
+    else if (!strcmp(op, "mg")) { char *v = list_string_get(l, (int)hp_int(t[2])); fputs(" = ", stdout); hp_putcstr(v); }
     else if (!strcmp(op, "mx")) { list_string_clear(l); fputs(" = ok", stdout); }
     else if (!strcmp(op, "mq")) { printf(" = empty %d", list_string_is_empty(l) ? 1 : 0); }
     else if (!strcmp(op, "md")) {
@@ -411,7 +411,8 @@ static nl_string_t *S[NSLOT];
 static void hp_sstate(int s) {
     nl_string_t *x = S[s];
     if (!x) { fputs(" | null", stdout); return; }
-    if (x->capacity > 0) { volatile char *d = x->data; char c = d[x->capacity - 1]; (void)c; }
+    /* the claimed capacity must be addressable (not asked of an empty, unterminated string: nothing of it is in use) */
+    if (x->capacity > 0 && (x->length > 0 || x->null_terminated)) { volatile char *d = x->data; char c = d[x->capacity - 1]; (void)c; }
     fputs(" | ", stdout);
     hp_puthex(x->data, x->length);
     printf(" len=%zu capok=%d nt=%d", nl_string_length(x), x->capacity >= x->length + (x->null_terminated ? 1u : 0u) ? 1 : 0,
